@@ -171,6 +171,18 @@ def c04(rep, lo, hi, counts=True):
     st, r = call(g.temporal_snapshots_ids)
     if st != 'ok' or list(r) != ids:
         raise Violation('C04.ids', 'ids-changed-by-a-query', {'impl': repr(r), 'model': ids})
+    import dynetx as dn
+    st, r = call(dn.temporal_snapshots_ids, g)
+    if st != 'ok' or list(r) != ids:
+        raise Violation('C04.ids', 'dn.temporal_snapshots_ids', {'impl': repr(r), 'model': ids})
+    if counts:
+        st, r = call(dn.interactions_per_snapshots, g)
+        if st != 'ok' or dict(r) != {t: m.count_at(t) for t in ids}:
+            raise Violation('C04.counts', 'dn.interactions_per_snapshots', {'impl': repr(r)})
+        for t in (lo, ids[0] if ids else lo, hi):
+            st, r = call(dn.interactions_per_snapshots, g, t)
+            if st != 'ok' or r != m.count_at(t):
+                raise Violation('C04.counts', 'dn.interactions_per_snapshots(t)', {'t': t, 'impl': repr(r), 'model': m.count_at(t)})
     if ids:
         st, r = call(g.avg_number_of_nodes)
         exp = m.avg_nodes()
@@ -191,6 +203,10 @@ def c05(rep, pres=None):
     if st != 'ok':
         raise Violation('C05.stream', 'raises', exc_class(r))
     s = r
+    import dynetx as dn
+    st, r2 = call(lambda: [tuple(e) for e in dn.stream_interactions(g)])
+    if st != 'ok' or r2 != s:
+        raise Violation('C05.stream', 'dn.stream_interactions-differs', {'method': repr(s)[:300], 'function': repr(r2)[:300]})
     for e in s:
         if len(e) != 4 or e[2] not in ('+', '-'):
             raise Violation('C05.stream', 'shape', repr(e))
